@@ -55,6 +55,10 @@ CHECKS = {
    text="The real boundary_matrix and hodge_laplacian run on every downward-closed complex on <=4 vertices (thorough: plus the full 4-simplex) with one solver bit per simplex orientation, unbounded symbolic vertex labels (every label order through the reference sort) and symbolic simplex ids; one z3 query per matrix entry decides column support = faces, entries +-1, k+1 entries per column, B_{k-1}B_k = 0, and Laplacian = B_k^T B_k + B_{k+1} B_{k+1}^T and symmetric. A second harness assigns labels from a pool with strings, negative and multi-digit numbers (every injective assignment).",
    note="numpy inside hodge_matrix is replaced by a dict-backed integer matrix during exploration; concrete replays use the real numpy. PSD and kernel dimension follow mathematically from the checked identities and are not separately decided.",
    technique="bounded symbolic execution (z3) of boundary_matrix with symbolic orientation bits, labels and ids; per-entry queries"),
+ "C16": dict(level=MC, ref="5/C16",
+   text="The RNG is replaced by its contract (geometric(): any integer >= 1; random(): any real in [0,1); sample/choice: any selection), so the skip-sampling loops of fast_random_hypergraph, uniform_erdos_renyi_hypergraph, uniform_HSBM, chung_lu/dcsbm and the per-candidate draws of random_hypergraph, random_simplicial_complex and the flag complexes are explored for every subset of candidates (paths), with the structural promises asserted on every path (exact node set, edges inside nodes, exact/allowed sizes, no repeats where forbidden, p=0 -> none, p=1 -> all without error, configuration model within prescribed degrees, closure, exactly the cliques). The three index decoders are decided with two symbolic indices (range + injectivity, hence bijection by counting).",
+   note="Parameter grids bounded to <=10 candidate indices per order; probabilities in {0, 0.5, 1}; deterministic generators (complete_hypergraph, flag complexes without probabilities) have no solver variable and are exhaustive concrete grids; distributional correctness is outside.",
+   technique="bounded symbolic execution (z3) of generators under a nondeterministic RNG stub; symbolic-index decoders"),
 }
 NOT_APPLICABLE = {
  "C11": "disk round trips: every value that reaches a file passes through json/numpy C encoders which reject or realise a symbolic proxy, so no solver variable can cross the file boundary; in-memory halves are decided under C10/C04",
